@@ -223,6 +223,12 @@ def judge_build(prog, geom, style, res, w_list=(0.0,)):
         res["extra"].setdefault("builder_errors", {})
         bump(res["extra"]["builder_errors"], "%s: %s" % (type(e).__name__, str(e)[:80]))
         return
+    judge_schematic(sch, prog, case, res, w_list)
+
+
+def judge_schematic(sch, prog, case, res, w_list=(0.0,)):
+    """compare the translation of a built drawing with the union-find reference of its placement program"""
+    from CircuitCalculator.SimpleCircuit.DiagramTranslator import circuit_translator
     try:
         circ = circuit_translator(sch)
         comps = list(circ.components)
